@@ -22,6 +22,9 @@ def gen_cases(ctx, tier=None):
             switches["chaotic-stream"] += 1
         else:
             d, sw = docgen.structured(rng)
+            if i % 9 == 8:
+                d = docgen.with_outer_copies(rng, d)
+                switches["outer-copies-of-info-keys"] += 1
             docs.append(d)
             for s in sw or ["none"]:
                 switches[s] += 1
@@ -35,6 +38,10 @@ def gen_cases(ctx, tier=None):
     for sq in seqs:
         docs.append(docgen.enc({b"info": {b"name": b"a" + sq + b"b", b"piece length": 1, b"pieces": b"", b"length": 0}}))
         switches["utf8-stream"] += 1
+    # names / path components of awkward lengths and compositions (see docgen.string_adversaries)
+    for d in docgen.string_documents(rng, None if tier == "thorough" else 900):
+        docs.append(d)
+        switches["string-adversary-stream"] += 1
     return ["c%d %s" % (i, d.hex()) for i, d in enumerate(docs)], dict(switches)
 
 
